@@ -17,9 +17,12 @@
       no mode changes what happens to the error;
     * callbacks/create.go `Create` (query branch and exec branch), callbacks/update.go `Update`,
       callbacks/delete.go `Delete`: `queryStmt`, `execStmt`.
-  Tied to the real functions by the harness suite `scan-tail` (real gorm.Scan on scripted rows, all modes ×
-  destination kinds × pre-existing errors) and `stage-stmt` (real Create / Update / Delete on SQLite behind the
-  stage-aware driver with a failure injected at every stage).
+  Tied to the real code: `scanTail` differentially by the harness suite `scan-tail` (real gorm.Scan on scripted
+  rows, all modes × destination kinds × pre-existing errors); `queryStmt` / `execStmt` by the regenerated table
+  `Gen.stageSinks` (sink and dominating conditions of every rows.Err / rows.Close / RowsAffected / LastInsertId
+  call: theorems C05_stage_errors_reach_addError, C05_stage_sites_present, C05_result_stages_after_call_check)
+  together with C05_statement_error_sinks for the calls themselves; end to end by the stage faults of the
+  `fault` suite (real operations on SQLite behind the stage-aware driver).
 -/
 import GormModel.Model.TxFault
 namespace Gorm.Stg
